@@ -25,31 +25,4 @@ __CPROVER_ensures(!RET ==> (value->refcount == OLD(value->refcount) && g_free_ca
 __CPROVER_ensures(AR_META(item).end_ptr == OLD(AR_META(item).end_ptr) && item->data == OLD(item->data) &&
                   AR_META(item).allocated == OLD(AR_META(item).allocated));
 
-/* set = push at size, replace below size, refuse above size (no holes) */
-bool cbor_array_set(cbor_item_t *item, size_t index, cbor_item_t *value)
-__CPROVER_requires(ALLOC_MODEL_BOUND && ARRAY_VALID(item) && ITEM_RW(value) && value->refcount < SIZE_MAX && value != item)
-__CPROVER_requires((AR_META(item).type == _CBOR_METADATA_INDEFINITE && AR_META(item).allocated > 0) ==> HEAP_BLOCK(item->data))
-__CPROVER_requires(index < AR_META(item).end_ptr ==>
-                   (ITEM_RW(AR_SLOTS(item)[index]) && AR_SLOTS(item)[index]->refcount >= 1 &&
-                    AR_SLOTS(item)[index] != item && HEAP_BLOCK(AR_SLOTS(item)[index]) &&
-                    (AR_SLOTS(item)[index] != value || value->refcount >= 2)))
-__CPROVER_assigns(ALLOC_GHOSTS, value->refcount, item->data, item->metadata)
-__CPROVER_assigns(AR_META(item).allocated > 0 : __CPROVER_object_whole(item->data))
-__CPROVER_assigns(index < AR_META(item).end_ptr : AR_SLOTS(item)[index]->refcount)
-__CPROVER_frees(AR_META(item).type == _CBOR_METADATA_INDEFINITE : item->data)
-__CPROVER_frees(index < AR_META(item).end_ptr && AR_SLOTS(item)[index]->refcount == 1 : AR_SLOTS(item)[index])
-/* above size: refused, the sequence is unchanged */
-__CPROVER_ensures(index > OLD(AR_META(item).end_ptr) ==>
-                  (!RET && AR_META(item).end_ptr == OLD(AR_META(item).end_ptr) && value->refcount == OLD(value->refcount) &&
-                   item->data == OLD(item->data) && g_realloc_calls == OLD(g_realloc_calls)))
-/* below size: always succeeds, size unchanged, element replaced */
-__CPROVER_ensures(index < OLD(AR_META(item).end_ptr) ==>
-                  (RET && AR_META(item).end_ptr == OLD(AR_META(item).end_ptr) && AR_SLOTS(item)[index] == value))
-/* at size: behaves as push */
-__CPROVER_ensures((index == OLD(AR_META(item).end_ptr) && RET) ==>
-                  (AR_META(item).end_ptr == index + 1 && AR_SLOTS(item)[index] == value &&
-                   value->refcount == OLD(value->refcount) + 1))
-__CPROVER_ensures((index == OLD(AR_META(item).end_ptr) && !RET) ==>
-                  (AR_META(item).end_ptr == index && value->refcount == OLD(value->refcount) && item->data == OLD(item->data)))
-__CPROVER_ensures(AR_META(item).end_ptr <= AR_META(item).allocated);
 #endif
